@@ -183,6 +183,8 @@ const PRIMS: &[(&str, usize)] = &[
     ("fx.tick", 1),
     ("fx.tick2", 2),
     ("fx.boom", 1),
+    ("c04m.tick", 1),
+    ("c04m.boom", 1),
 ];
 
 fn prim(name: &'static str) -> V {
@@ -202,6 +204,7 @@ pub fn initial_env(p: &Program) -> Env {
     env = bind(&env, "array", rec(&[("len", "array.len"), ("index", "array.index"), ("append", "array.append"), ("slice", "array.slice")]));
     env = bind(&env, "string", rec(&[("len", "string.len"), ("append", "string.append"), ("is_empty", "string.is_empty")]));
     env = bind(&env, "fx", rec(&[("tick", "fx.tick"), ("tick2", "fx.tick2"), ("boom", "fx.boom")]));
+    env = bind(&env, "c04m", rec(&[("tick", "c04m.tick"), ("boom", "c04m.boom")]));
     for t in &p.types {
         for (i, (c, args)) in t.ctors.iter().enumerate() {
             let v = if args.is_empty() { V::Data(i as u32, Rc::new(Vec::new())) } else { V::Ctor(i as u32, args.len(), Rc::new(Vec::new())) };
@@ -544,6 +547,15 @@ impl Interp {
                 self.effects.push(("tick2".into(), i.wrapping_mul(1000).wrapping_add(*j)));
                 V::Int(*j)
             }
+            ("c04m.tick", [V::Int(i)]) => {
+                let j = match i.checked_add(100) {
+                    Some(j) => j,
+                    None => return self.arith_fail(),
+                };
+                self.effects.push(("tick".into(), j));
+                V::Int(j)
+            }
+            ("c04m.boom", [_]) => return Err(Fail::Explicit("mb".into())),
             ("fx.boom", [V::Int(i)]) => {
                 self.effects.push(("boom".into(), *i));
                 return Err(Fail::Explicit(format!("boom{}", i)));
